@@ -181,6 +181,8 @@ pub fn run(ctx: &mut Ctx) {
                 redecode_case(ctx, &ls, compressed, &f, false);
             }
         }
+        // every row of the two name tables (track configurations, cars) in every kind that carries one
+        for f in name_table_frames(&ls, compressed) { redecode_case(ctx, &ls, compressed, &f, true); }
         // packets obtained by decoding accepted frames (valid and wild) are re-encoded
         for l in ls.kinds.clone().iter() {
             for i in 0..(if quick { 25 } else { 800 }) {
